@@ -255,6 +255,11 @@ class Generator:
                         break
         else:
             mt = list(self._ws_regex(to).finditer(text))
+        if len(mf) == 0 and opts.get("optional"):
+            # the statement was introduced by a repair; on a tree without it the contracts of the code that would
+            # have used it decide (the rewrites that direct calls to this region are skipped with it)
+            g.lines.append("// (optional region `%s` absent from %s)" % (frm[:50], path))
+            return
         if len(mf) != 1 or len(mt) != 1 or mt[0].end() <= mf[0].start():
             raise AnchorLost("region anchors not found exactly once in %s (from:%d to:%d)" % (path, len(mf), len(mt)))
         body = text[(mf[0].end() if (frm == "^" or fromafter) else mf[0].start()):(mt[0].start() if until else mt[0].end())]
